@@ -128,6 +128,7 @@ func backupCmd(out *cq.Out, seed uint64, tier string) {
 				continue
 			}
 			have := int64(rn.VBalloonVersion())
+			ops = append(ops, fmt.Sprintf("BRestore %d%%N %d%%N", b.id, have))
 			if have != b.version+1 {
 				out.Violate("C16:wrong-version-after-restore", fmt.Sprintf("a backup recorded at version %d restores to a log of %d events", b.version, have), desc)
 			}
